@@ -425,14 +425,6 @@ def handleStartup (st : St) (args : List String) (impl : String) : St × Verdict
   | ["steps", labels] => ({ st with glabels := labels.splitOn "," }, .ok)
   -- an empty directory: genesis is installed; started again: still genesis
   | ["empty", _] => (st, cmpModel "open=ok head=b0" (implClass impl))
-  | ["empty-killed", n, _label] =>
-    match n.toNat? with
-    | none => (st, .unknown)
-    | some n =>
-      let g := (gstepsOfLabels st.glabels n).foldl applyGStep {}
-      match recoverG g with
-      | none => (st, cmpModel "open=ok head=b0" (implClass impl))
-      | some why => (st, cmpModel s!"open=err:{why.toString}" (implClass impl))
   -- database on `head`, no txhashset directory: no candidate validates on empty files
   | ["no-txhashset", head] =>
     match idOf head >>= fun h => pathOf st.tbl (st.tbl.length + 1) h [] with
@@ -446,6 +438,21 @@ def handleStartup (st : St) (args : List String) (impl : String) : St × Verdict
       let ph := ((pathOf st.tbl (st.tbl.length + 1) p []).map (·.length)).getD 0
       (st, cmpModel (showRec (recoverPibd h hh ph (.openFail .other))) (implClass impl))
     | _, _ => (st, .unknown)
+  -- killed at the n-th crash point of the first start, reopened, a chain delivered: coinbase-only
+  -- (`empty-killed`) or one whose fifth block spends the genesis coinbase (`empty-killed-spend`): the
+  -- chain is followed unless the genesis output was lost by a second installation of genesis
+  | [variant, n, _label] =>
+    if variant != "empty-killed" && variant != "empty-killed-spend" then (st, .unknown) else
+    match n.toNat? with
+    | none => (st, .unknown)
+    | some n =>
+      let g := (gstepsOfLabels st.glabels n).foldl applyGStep {}
+      let chainTok := ((splitWs impl).find? (·.startsWith "chain=")).getD ""
+      match recoverG g with
+      | none =>
+        let follows := variant == "empty-killed" || genesisOutputSpendable g
+        (st, cmpModel s!"open=ok head=b0 chain={if follows then "ok" else "refused"}" s!"{implClass impl} {chainTok}")
+      | some why => (st, cmpModel s!"open=err:{why.toString}" (implClass impl))
   | _ => (st, .unknown)
 
 def handle (st : St) (args : List String) (impl : String) : St × Verdict :=
